@@ -64,6 +64,7 @@ type oracles struct {
 	everRemoved map[uint64]uint64 // replica id -> ccid at which it was seen removed
 	maxCommitted uint64
 	dupFired int
+	deadWids []uint64 // writes proposed with unregistered sessions: must never be applied
 	panics   []string
 	abandoned []*pendingReq
 	snapshotsDone int
@@ -184,6 +185,9 @@ func (o *oracles) SMUpdate(i *SMInst, index uint64, cmd []byte, res sm.Result) {
 		o.widCount[i] = wc
 	}
 	wc[wid]++
+	if wc[wid] > 1 && s.cfg.Sessions && s.cfg.SMKind != KindOnDisk {
+		s.ctx.Violate("C05", "dup-apply", "write id %d (proposed with a registered session, retried with the same series id) was applied twice by the state machine of replica %d", wid, i.ReplicaID)
+	}
 	if wc[wid] > 1 && !o.allowDup {
 		// without network duplication and without client retries a proposal is in
 		// the log at most once, so it reaches a state machine at most once
@@ -423,6 +427,20 @@ func (o *oracles) onSend(from int, mb pb.MessageBatch) {
 	sh := o.shadows[from]
 	lg := o.ledgers[from]
 	for _, m := range mb.Requests {
+		// C18: witnesses are never sent user payloads, only entry metadata and
+		// membership changes, and only witness (dummy) snapshots
+		if int(m.To) >= 1 && int(m.To) <= len(s.hosts) {
+			if t := s.hosts[m.To-1]; t.joined && t.role == roleWitness && t.joinRole == roleWitness {
+				for _, e := range m.Entries {
+					if (e.Type == pb.ApplicationEntry || e.Type == pb.EncodedEntry) && len(e.Cmd) > 0 {
+						s.ctx.Violate("C18", "payload-to-witness", "replica %d sent entry %d (type %s, %d payload bytes) to witness %d", m.From, e.Index, e.Type, len(e.Cmd), m.To)
+					}
+				}
+				if len(m.Entries) > 0 {
+					s.ctx.Count("probe.replicate_to_witness", 1)
+				}
+			}
+		}
 		switch m.Type {
 		case pb.RequestVote:
 			if sh.term < m.Term || (sh.term == m.Term && sh.vote != m.From) {
@@ -847,6 +865,13 @@ func (o *oracles) checkLinearizable() {
 			s.ctx.Count("probe.linearizability_inconclusive", 1)
 		default:
 			s.ctx.Count("probe.linearizable_histories", 1)
+		}
+	}
+	for _, w := range o.deadWids {
+		for _, rec := range o.appliedAt {
+			if rec.wid == w {
+				s.ctx.Violate("C05", "unregistered-session-applied", "write %d proposed with an unregistered session was applied", w)
+			}
 		}
 	}
 	// Dropped/Rejected writes never reach the state machine
